@@ -663,8 +663,8 @@ func decodeBinary(value *reflect.Value, packet []byte, state *stateDecode) (*ref
 	if len(packet) < 4 {
 		return nil, nil, errDecodeEOD
 	}
-	l := binary.BigEndian.Uint32(packet)
-	if len(packet) < int(4+l) {
+	l := int(binary.BigEndian.Uint32(packet))
+	if len(packet) < 4+l {
 		return nil, nil, errDecodeEOD
 	}
 
